@@ -12,6 +12,9 @@ use std::path::PathBuf;
 use std::sync::atomic::{AtomicU64, Ordering};
 use std::sync::Mutex;
 
+/// verdicts of the server fast path that fresh processes did not confirm (must stay 0)
+static DISCREPANCIES: AtomicU64 = AtomicU64::new(0);
+
 // -------------------------------------------------------------------------------------------------
 // cases and their evaluation (used by campaigns, minimisation and replay alike)
 // -------------------------------------------------------------------------------------------------
@@ -403,6 +406,8 @@ struct Agg {
     gadgets: BTreeMap<String, u64>,
     multi_thread_runs: u64,
     not_judgeable: u64,
+    server_runs: u64,
+    server_fallbacks: u64,
     violations: Vec<Found>,
     samples: Vec<Value>,
     log: Vec<String>,
@@ -417,6 +422,9 @@ struct Found {
 
 fn account_run(agg: &mut Agg, wl_hash: u64, mode: &CliMode, env: &Env, out: &RunOut, warnings: Option<&[Warning]>) {
     agg.runs += 1;
+    if out.via_server {
+        agg.server_runs += 1;
+    }
     if let Some(s) = &out.stats {
         for (k, v) in [s.getrandom, s.read, s.read_short, s.read_eintr, s.write, s.write_short, s.write_eintr].iter().enumerate() {
             agg.io[k] += v;
@@ -471,6 +479,8 @@ fn merge(into: &mut Agg, from: Agg) {
     for (k, v) in from.gadgets { *into.gadgets.entry(k).or_insert(0) += v; }
     into.multi_thread_runs += from.multi_thread_runs;
     into.not_judgeable += from.not_judgeable;
+    into.server_runs += from.server_runs;
+    into.server_fallbacks += from.server_fallbacks;
     into.violations.extend(from.violations);
     into.samples.extend(from.samples);
     into.log.extend(from.log);
@@ -481,7 +491,7 @@ fn workload_for(seed: u64, index: u64) -> Workload {
 }
 
 /// The runs of one workload for the given property.
-fn explore_workload(ctx: &Ctx, wd: &WorkDir, prop: &str, index: u64, envs_per_workload: u64, agg: &mut Agg, dump: bool) {
+fn explore_workload(ctx: &Ctx, wd: &WorkDir, wd_oneshot: &WorkDir, prop: &str, index: u64, envs_per_workload: u64, agg: &mut Agg, dump: bool) {
     let w = workload_for(ctx.seed, index);
     let pcode_bytes = serde_json::to_vec(&w.pcode).unwrap();
     let wl_hash = fnv64(&pcode_bytes) ^ fnv64(&w.elf);
@@ -492,6 +502,20 @@ fn explore_workload(ctx: &Ctx, wd: &WorkDir, prop: &str, index: u64, envs_per_wo
     for g in &w.meta.gadgets {
         *agg.gadgets.entry(g.clone()).or_insert(0) += 1;
     }
+    // Fast path = long-lived server process; every anomaly is judged again from fresh processes.
+    let evaluate = |ctx: &Ctx, wd: &WorkDir, kind: &str, case: &Case, lkm: bool| -> Result<Eval, (Violation, Vec<RunOut>)> {
+        match evaluate(ctx, wd, kind, case, lkm) {
+            Err((v, outs)) if outs.iter().any(|o| o.via_server) => match evaluate(ctx, wd_oneshot, kind, case, lkm) {
+                Ok(ev) => {
+                    DISCREPANCIES.fetch_add(1, Ordering::SeqCst);
+                    eprintln!("note: server-mode verdict {} of workload {index} did not reproduce in fresh processes", v.class);
+                    Ok(ev)
+                }
+                Err(e) => Err(e),
+            },
+            other => other,
+        }
+    };
     let mut found = |agg: &mut Agg, oracle: &str, case: Case, v: Violation| {
         if v.class.starts_with("not_judgeable") {
             agg.not_judgeable += 1;
@@ -773,14 +797,18 @@ pub fn run_check(prop: &str, tier: &str, workloads_override: Option<u64>, dump: 
             let results = &results;
             let work_root = &work_root;
             s.spawn(move || {
+                let use_server = std::env::var("SIM_NO_SERVER").is_err();
                 let wd = WorkDir::new(&work_root.join(format!("w{t}")), &ctx.paths);
+                let wd = if use_server { wd.with_server() } else { wd };
+                let wd_oneshot = WorkDir::new(&work_root.join(format!("w{t}")), &ctx.paths);
                 let mut agg = Agg::default();
                 loop {
                     let i = next.fetch_add(1, Ordering::SeqCst);
                     if i >= workloads {
                         break;
                     }
-                    explore_workload(ctx, &wd, prop, i, envs, &mut agg, dump);
+                    explore_workload(ctx, &wd, &wd_oneshot, prop, i, envs, &mut agg, dump);
+                    agg.server_fallbacks = wd.server_fallbacks.get();
                 }
                 results.lock().unwrap().push(agg);
             });
@@ -881,6 +909,10 @@ pub fn run_check(prop: &str, tier: &str, workloads_override: Option<u64>, dump: 
     extra.insert("cli_modes".into(), json!(total.modes));
     extra.insert("gadgets_planted".into(), json!(total.gadgets));
     extra.insert("runs_not_judgeable_because_c21_failed".into(), json!(total.not_judgeable));
+    extra.insert("runs_served_by_long_lived_server_process".into(), json!(total.server_runs));
+    extra.insert("runs_in_fresh_processes".into(), json!(total.runs - total.server_runs));
+    extra.insert("server_mode_verdicts_not_confirmed_by_fresh_process".into(), json!(DISCREPANCIES.load(Ordering::SeqCst)));
+    extra.insert("runs_that_took_the_server_down".into(), json!(total.server_fallbacks));
     extra.insert("known_findings_seen".into(), json!(known_lines.iter().collect::<Vec<_>>()));
     extra.insert("components".into(), json!({
         "real": ["src/caller/src/main.rs (argument parsing, check selection, sorting, printing)", "all of cwe_checker_lib (lifting, normalisation, CFG, fixpoints, every check, utils/log.rs)", "goblin ELF parsing", "shipped config.json / lkm_config.json"],
@@ -929,6 +961,10 @@ pub fn run_check(prop: &str, tier: &str, workloads_override: Option<u64>, dump: 
         }
         if !dead.is_empty() {
             eprintln!("HARNESS ERROR: reach counters stuck at zero: {dead:?}");
+            return 2;
+        }
+        if DISCREPANCIES.load(Ordering::SeqCst) > 0 {
+            eprintln!("HARNESS ERROR: {} verdicts of the server fast path were not confirmed by fresh processes", DISCREPANCIES.load(Ordering::SeqCst));
             return 2;
         }
         if total.not_judgeable > 0 && prop != "C21" {
